@@ -475,6 +475,8 @@ def hint_to_python(h):
         return typing.TypeVar('TB', bound=rec(h[1]))
     if t == 'newtype':
         return typing.NewType('NT', rec(h[1]))
+    if t == 'meta':
+        return typing.Annotated[rec(h[1]), 'metadata that is no validator']
     raise ValueError(h)
 
 
